@@ -7,7 +7,7 @@ use serde_json::{json, Value};
 pub const DEF: PropDef = PropDef {
     id: "C15",
     level: "exploration",
-    rule: "35 base programs with up to 3 name placeholders in every name position (targets, operands, subscripts, listen, build/knock, rock/roll, mutation operand / destination, parameters, function and call names, poetic assignment, pronoun referents, erroring uses, 's / 're contractions, a name shared by a function and a parameter or variable); for each: all 6^k fillings from three name kinds x two alphabets (simple zed / élan, common the zed / my élan, proper Zed Yod / Élan Über Zed; distinct words per placeholder so that distinct spellings denote distinct variables); for every filling every single mention re-cased in each admissible way (proper names keep their capitals), all mentions re-cased at once, (thorough) all pairs of re-cased mentions, and all keywords upper-cased / title-cased / aLtErNaTeD / AlTeRnAtEd; oracle (metamorphic, no reference interpreter): stdout and outcome class equal those of the all-simple-lowercase filling; non-trivial = every case (two executions compared); distinct = distinct program text",
+    rule: "40 base programs with up to 3 name placeholders in every name position (targets, operands, subscripts, listen, build/knock, rock/roll, mutation operand / destination, parameters, function and call names, poetic assignment, pronoun referents, erroring uses, 's / 're contractions, a name shared by a function and a parameter or variable); for each: all 6^k fillings from three name kinds x two alphabets (simple zed / élan, common the zed / my élan, proper Zed Yod / Élan Über Zed; distinct words per placeholder so that distinct spellings denote distinct variables); for every filling every single mention re-cased in each admissible way (proper names keep their capitals), all mentions re-cased at once, (thorough) all pairs of re-cased mentions, and all keywords upper-cased / title-cased / aLtErNaTeD / AlTeRnAtEd; oracle (metamorphic, no reference interpreter): stdout and outcome class equal those of the all-simple-lowercase filling; non-trivial = every case (two executions compared); distinct = distinct program text",
     assumptions: &["error messages quote names as spelled and are therefore compared by class (ok / runtime error / parse error) only"],
     build,
     exhaustive: true,
@@ -51,6 +51,12 @@ pub const BASES: &[&str] = &[
     "@1 takes @2\ngive back @2\n\nsay @1 taking 1\nsay @1 taking 2\nput 0 into @3\nwhile @3 is less than 2\nbuild @3 up\nsay @1 taking @3\n\n",
     "put 1 into @1\n@2 takes @3\nsay @1\nput 2 into @1\ngive back @1\n\nsay @2 taking 0\nsay @1\nsay @2 taking 0\nsay @1\n",
     "put 1 into @1\nif true\nput 2 into @2\nsay @1 plus @2\n\nsay @2\n",
+    // the same name twice where names must differ, or in two roles at once
+    "@1 takes @2 and @2\nsay 1\ngive back @2\n\nsay 2\nsay @1 taking 1, 2\nsay 3\n",
+    "@1 takes @2 and @3 and @2\ngive back @3\n\nsay 2\n",
+    "@1 takes @2\ngive back @2\n\nsay 1\n@1 takes @3\ngive back 5\n\nsay @1 taking 2\n",
+    "put 1 into @1\nsay 1\n@1 takes @2\ngive back @2\n\nsay 2\nsay @1\n",
+    "rock @1 with 1\nlet @1 at @1 be 2\nsay @1\n",
 ];
 
 /// per placeholder: (spelling, kind) — kind 0 simple, 1 common, 2 proper
